@@ -1,8 +1,10 @@
-(* SharedFmla — xlsx shared formulas (property C15).  Definitions only: model, spec, known
-   classes.  Proofs are in SharedFmla_proofs.v.
+(* SharedFmla — xlsx shared formulas (property C15).  Definitions only: model and spec (no known
+   class is left).  Proofs are in SharedFmla_proofs.v.
 
-   Modelled Rust functions (current /repo tree, after the fix: commits 7595189 0817afa 2d75670):
-     src/xlsx/mod.rs           replace_cell_names, offset_cell_name, is_formula_word_char
+   Modelled Rust functions (/repo after the fix: commits 7595189 0817afa 2d75670 and the two
+   commits of branch c15-fixes: 3-D sheet prefix look-ahead, offset_whole_range):
+     src/xlsx/mod.rs           replace_cell_names, offset_cell_name, offset_whole_range,
+                               is_formula_word_char
                                (column_number_to_name is modelled in Col26.v, written by agent c14)
      src/xlsx/mod.rs           get_row_and_optional_column, get_row_column, get_dimension as of the
                                C06 hardening (u64 saturating accumulators, u32::try_from -> Err,
@@ -153,6 +155,69 @@ Definition offset_cell_name (name : list N) (off : Z * Z) : outcome (option (lis
   | Some p => ocn_apply p off
   end.
 
+(* ------------------------------------------------------------------ MODEL: offset_whole_range *)
+(*  fn end(word) -> Option<(bool, bool, i64)>   (is a column, has a `$`, 0-based index)
+      let abs = word.first() == Some(&'$');  let body = if abs { &word[1..] } else { word };
+      if body.is_empty() { None }
+      else if body.len() <= 3 && body.iter().all(|c| c.is_ascii_alphabetic()) { col = fold .. - 1;
+              if col < MAX_COLUMNS as i64 { Some((true, abs, col)) } else { None } }
+      else if body.len() <= 7 && body[0] != '0' && body.iter().all(|c| c.is_ascii_digit()) { row = fold .. - 1;
+              if row < MAX_ROWS as i64 { Some((false, abs, row)) } else { None } }
+      else { None }
+   The folds run over at most 3 / 7 characters: no i64 overflow; body[0] under a non-empty body. *)
+Definition owr_end (w : list N) : option (bool * bool * Z) :=
+  let abs := starts_dollar w in
+  let body := if abs then tl w else w in
+  if is_nil body then None
+  else if (length body <=? 3)%nat && forallb is_alpha body then
+    let col := (fold_left (fun a c => a * 26 + (Z.of_N (to_upper c) - 65 + 1)) body 0 - 1)%Z in
+    if (col <? ZCOLS)%Z then Some (true, abs, col) else None
+  else if (length body <=? 7)%nat && negb (hd 0 body =? ch_0) && forallb is_digit body then
+    let row := (fold_left (fun a c => a * 10 + (Z.of_N c - 48)) body 0 - 1)%Z in
+    if (row <? ZROWS)%Z then Some (false, abs, row) else None
+  else None.
+
+Definition checked_add_i64 (a b : Z) : option Z :=          (* i64::checked_add *)
+  let s := (a + b)%Z in
+  if ((I64MIN <=? s) && (s <=? I64MAX))%Z then Some s else None.
+
+(* one iteration of `for (k, (_, abs, index)) in [a, b]`: the text pushed for that end, or
+   None where the function returns None *)
+Definition owr_one (is_col abs : bool) (index delta max : Z) : outcome (option (list N)) :=
+  match (if abs then Some index else checked_add_i64 index delta) with
+  | None => Ok None                                         (* checked_add(delta)? *)
+  | Some i =>
+    if negb ((0 <=? i) && (i <? max))%Z then Ok None else
+    do body <- (if is_col then
+                  match column_number_to_name (as_u32 i) with      (* .ok()? *)
+                  | Ok cs => Ok (Some cs)
+                  | Err _ => Ok None
+                  | Panic => Panic
+                  | OutOfFuel => OutOfFuel
+                  end
+                else Ok (Some (i64_to_string (i + 1))));
+    Ok (match body with
+        | Some b => Some ((if abs then [ch_dollar] else []) ++ b)
+        | None => None
+        end)
+  end.
+
+Definition offset_whole_range (first second : list N) (off : Z * Z) : outcome (option (list N)) :=
+  match owr_end first, owr_end second with
+  | Some (k1, a1, i1), Some (k2, a2, i2) =>
+      if negb (Bool.eqb k1 k2) then Ok None else
+      let delta := if k1 then snd off else fst off in
+      let max := if k1 then ZCOLS else ZROWS in
+      do e1 <- owr_one k1 a1 i1 delta max;
+      match e1 with
+      | None => Ok None
+      | Some t1 =>
+          do e2 <- owr_one k1 a2 i2 delta max;
+          Ok (match e2 with None => None | Some t2 => Some (t1 ++ [ch_colon] ++ t2) end)
+      end
+  | _, _ => Ok None
+  end.
+
 (* ------------------------------------------------------------------ MODEL: replace_cell_names *)
 (*  res.push(c); i += 1;
     while i < chars.len() { res.push(chars[i]); i += 1; if chars[i - 1] == c { break; } }
@@ -195,6 +260,43 @@ Definition is_formula_word_char (c : N) : bool :=
   is_alnum c || (c =? ch_uscore) || (c =? ch_dot) || (c =? ch_dollar) || (c =? ch_bslash) ||
   (c =? ch_qmark).
 
+(* the word branch of the loop body: [word] = chars[start..i], [r] = chars[i..];
+   (text pushed on res, chars[i..] after the iteration) *)
+Definition word_step (off : Z * Z) (word r : list N) : outcome (list N * list N) :=
+  (*  let mut j = i; if chars.get(i) == Some(&':') { j = i + 1; while .. word char .. { j += 1 } }
+      let second = if j > i { &chars[i + 1..j] } else { &[] };   sr = (second, chars[j..]) *)
+  let sr := match r with
+            | x :: r' => if x =? ch_colon then span is_formula_word_char r' else ([], r)
+            | [] => ([], r)
+            end in
+  let second := fst sr in
+  let r2 := snd sr in
+  (*  match chars.get(j) { _ if second.is_empty() => None, Some('(') | Some('!') => None,
+                           _ => offset_whole_range(word, second, offset) } *)
+  do whole <- (if is_nil second then Ok None
+               else match r2 with
+                    | x :: _ => if (x =? ch_lparen) || (x =? ch_bang) then Ok None
+                                else offset_whole_range word second off
+                    | [] => offset_whole_range word second off
+                    end);
+  match whole with
+  | Some range => Ok (range, r2)                       (* res.push_str(&range); i = j; continue *)
+  | None =>
+    (*  match chars.get(i) { Some('(') | Some('!') => None,
+                             Some(':') if !second.is_empty() && chars.get(j) == Some(&'!') => None,
+                             _ => offset_cell_name(word, offset) } *)
+    do translated <- (match r with
+                      | x :: _ =>
+                          if (x =? ch_lparen) || (x =? ch_bang) then Ok None
+                          else if (x =? ch_colon) && nonempty second &&
+                                  (match r2 with y :: _ => y =? ch_bang | [] => false end)
+                               then Ok None
+                          else offset_cell_name word off
+                      | [] => offset_cell_name word off
+                      end);
+    Ok (match translated with Some name => name | None => word end, r)
+  end.
+
 (* one iteration of `while i < chars.len()` with c = chars[i], t = chars[i+1..]:
    (text pushed on res, chars[i..] after the iteration) *)
 Definition rcn_step (off : Z * Z) (c : N) (t : list N) : outcome (list N * list N) :=
@@ -203,14 +305,7 @@ Definition rcn_step (off : Z * Z) (c : N) (t : list N) : outcome (list N * list 
   else if c =? ch_lbrack then scan_bracket (c :: t) 0
   else if is_formula_word_char c then
     let wr := span is_formula_word_char (c :: t) in
-    let word := fst wr in
-    (*  match chars.get(i) { Some('(') | Some('!') => None, _ => offset_cell_name(word, offset) } *)
-    do translated <- (match snd wr with
-                      | x :: _ => if (x =? ch_lparen) || (x =? ch_bang) then Ok None
-                                  else offset_cell_name word off
-                      | [] => offset_cell_name word off
-                      end);
-    Ok (match translated with Some name => name | None => word end, snd wr)
+    word_step off (fst wr) (snd wr)
   else Ok ([c], t).
 
 (* the outer loop; one unit of fuel per iteration, every iteration consumes at least one char *)
@@ -442,7 +537,35 @@ Fixpoint adjacent_ok (ts : list token) : bool :=
       (if ends_word (render a) then starts_sep (render b) else true) && adjacent_ok rest
   | _ => true
   end.
-Definition wf_formula (ts : list token) : bool := forallb tok_valid ts && adjacent_ok ts.
+(* the ':' : a word directly before a ':' and the word directly after it are the two ends of a
+   whole-column / whole-row range only inside a TColRange / TRowRange token, and the two names of
+   a 3-D sheet prefix only inside a TSheetRange token.  So, where a token ends with a word w and
+   the rest of the formula is ':' v .., w and v must not both have the shape of a range end
+   ([$] then one to three letters, or one to seven digits), and v must not be followed by '!'. *)
+Definition last_word (u : list N) : list N := rev (fst (span word_char (rev u))).
+Definition is_range_end (w : list N) : bool :=
+  let body := if starts_dollar w then tl w else w in
+  nonempty body &&
+  (((length body <=? 3)%nat && forallb is_alpha body) || ((length body <=? 7)%nat && forallb is_digit body)).
+Definition colon_free (w s : list N) : bool :=
+  match s with
+  | x :: s' =>
+      if x =? ch_colon then
+        let v := fst (span word_char s') in
+        let r := snd (span word_char s') in
+        is_nil w || is_nil v ||
+        (negb (match r with y :: _ => y =? ch_bang | [] => false end) &&
+         negb (is_range_end w && is_range_end v))
+      else true
+  | [] => true
+  end.
+Fixpoint colon_ok (ts : list token) : bool :=
+  match ts with
+  | a :: rest => colon_free (last_word (render a)) (render_all rest) && colon_ok rest
+  | [] => true
+  end.
+Definition wf_formula (ts : list token) : bool :=
+  forallb tok_valid ts && adjacent_ok ts && colon_ok ts.
 End Wf.
 
 (* every reference lies on the sheet before and after translation, and the offset is the
@@ -468,46 +591,19 @@ Definition in_range (ts : list token) (off : Z * Z) : Prop := in_rangeb ts off =
 (* ------------------------------------------------------------------ behaviour outside in_range *)
 (* NOT part of the property (no translated reference exists there): what the code documents —
    "a reference that would leave the sheet is left unchanged" — stated so that the theorem
-   translate_total covers every offset of the sheet.  A reference is moved as a whole or not
-   at all. *)
+   translate_total covers every offset of the sheet.  A reference (cell, whole-column or
+   whole-row range) is moved as a whole or not at all. *)
 Definition translate_clip (off : Z * Z) (t : token) : token :=
   match t with
-  | TRef ca c ra r => if tok_in_range off t then translate off t else t
+  | TRef _ _ _ _ | TColRange _ _ _ _ | TRowRange _ _ _ _ =>
+      if tok_in_range off t then translate off t else t
   | _ => t
   end.
 
 (* ------------------------------------------------------------------ KNOWN classes *)
-(* The classes of the previous tree (F22-mixed, -lookalike, -nonascii, -quote, -overflow, -block,
-   -si-order, -edge; class ids 1..7) are gone.  What remains: *)
-Definition CL_WHOLE : N := 8.     (* A:A, 1:3 with a relative component: never moved by the code *)
-Definition CL_SHEET3D : N := 9.   (* Q1:Q3! unquoted 3-D prefix: the first name is moved like a cell *)
-
-Definition known_token (t : token) : option N :=
-  match t with
-  | TColRange a1 _ a2 _ => if a1 && a2 then None else Some CL_WHOLE
-  | TRowRange a1 _ a2 _ => if a1 && a2 then None else Some CL_WHOLE
-  | TSheetRange n1 _ => if is_cell_name n1 then Some CL_SHEET3D else None
-  | _ => None
-  end.
-Fixpoint known_C15 (ts : list token) : option N :=
-  match ts with
-  | [] => None
-  | t :: r => match known_token t with Some k => Some k | None => known_C15 r end
-  end.
-
-(* sharper, per offset: a whole-column range is harmless when the column offset is 0 (vertical
-   groups), a whole-row range when the row offset is 0 *)
-Definition known_token_at (off : Z * Z) (t : token) : option N :=
-  match t with
-  | TColRange a1 _ a2 _ => if (a1 && a2) || (snd off =? 0)%Z then None else Some CL_WHOLE
-  | TRowRange a1 _ a2 _ => if (a1 && a2) || (fst off =? 0)%Z then None else Some CL_WHOLE
-  | _ => known_token t
-  end.
-Fixpoint known_at (off : Z * Z) (ts : list token) : option N :=
-  match ts with
-  | [] => None
-  | t :: r => match known_token_at off t with Some k => Some k | None => known_at off r end
-  end.
+(* None.  F22-mixed, -lookalike, -nonascii, -quote, -overflow, -block, -si-order, -edge were
+   repaired in /repo by 7595189, 0817afa, 2d75670; F22-sheet3d and F22-whole-range by the two
+   commits of branch c15-fixes (3-D prefix look-ahead, offset_whole_range). *)
 
 (* ------------------------------------------------------------------ SPEC: groups *)
 (* a shared-formula group as the file declares it *)
@@ -577,12 +673,11 @@ Definition group_okb (g : group) : bool :=
   (fst (g_end g) <? MAX_ROWS) && (snd (g_end g) <? MAX_COLUMNS) &&
   (fst (g_master g) <? MAX_ROWS) && (snd (g_master g) <? MAX_COLUMNS).
 Definition member_okb (g : group) (p : N * N) : bool :=
-  wf_formula is_alnum (g_tokens g) && in_rangeb (g_tokens g) (member_offset g p) &&
-  (match known_at (member_offset g p) (g_tokens g) with None => true | Some _ => false end).
+  wf_formula is_alnum (g_tokens g) && in_rangeb (g_tokens g) (member_offset g p).
 
 (* the sheets covered by the group theorem: well-formed groups (any shape, any master
    position, shared indices in any order, repeated or not), and every member inside a declared
-   ref has a formula of the grammar that stays on the sheet, outside the known classes *)
+   ref has a formula of the grammar that stays on the sheet *)
 Fixpoint sheet_okb (seen : list group) (cs : list scell) : bool :=
   match cs with
   | [] => true
